@@ -29,6 +29,20 @@ TECHNIQUE = 'static analysis: table rule, def-use of the narrowed array, effect 
 WANT_OPS = {'>': 'operator.gt', '<': 'operator.lt', '>=': 'operator.ge', '<=': 'operator.le', '==': 'operator.eq'}
 
 
+def _table_name(P, f):
+    """name of the operator table used by filter(): the local dict or the module constant holding the operator.* functions"""
+    for n in all_nodes(f):
+        if isinstance(n, ast.Assign) and isinstance(n.value, ast.Dict) and isinstance(n.targets[0], ast.Name) \
+                and any(isinstance(v, (ast.Attribute, ast.Name)) and (P.canon(f, v) or '').startswith('operator.') for v in n.value.values):
+            return n.targets[0].id
+    used = {n.id for n in all_nodes(f) if isinstance(n, ast.Name)}
+    for nm, val in f.module.assigns.items():
+        if nm in used and isinstance(val, ast.Dict) and any(isinstance(v, (ast.Attribute, ast.Name)) and (P.canon(f.module, v) or '').startswith('operator.')
+                                                             for v in val.values):
+            return nm
+    return 'operators'
+
+
 def _scopes(P, f):
     """the function and the helper functions defined inside it"""
     pre = f.qualname + '.<locals>.'
@@ -41,12 +55,19 @@ def rule_operators(ck):
     f = P.func(A + 'filter')
     tabs = [n for n in all_nodes(f) if isinstance(n, ast.Assign) and isinstance(n.value, ast.Dict) and isinstance(n.targets[0], ast.Name)
             and any(isinstance(v, (ast.Attribute, ast.Name)) and (P.canon(f, v) or '').startswith('operator.') for v in n.value.values)]
+    if not tabs:
+        # the table as a module-level constant used by filter()
+        used = {n.id for n in all_nodes(f) if isinstance(n, ast.Name)}
+        for nm, val in f.module.assigns.items():
+            if nm in used and isinstance(val, ast.Dict) and any(isinstance(v, (ast.Attribute, ast.Name)) and (P.canon(f.module, v) or '').startswith('operator.')
+                                                                 for v in val.values):
+                tabs.append(ast.Assign(targets=[ast.Name(id=nm, ctx=ast.Store())], value=val, lineno=val.lineno, col_offset=0))
     o = ck.ob('C04-D1.table', f, tabs[0].value if tabs else 'operator table', tabs[0] if tabs else f.node)
     if len(tabs) != 1:
         o.fail('cannot find the single operator table of filter()')
         return
     tname = tabs[0].targets[0].id
-    got = {k: P.canon(f, v) for k, v in dict_literal_items(tabs[0].value)}
+    got = {k: (P.canon(f, v) or P.canon(f.module, v)) for k, v in dict_literal_items(tabs[0].value)}
     if got == WANT_OPS:
         o.ok('five operators, each mapped to its operator.* function')
     else:
@@ -118,7 +139,7 @@ def rule_narrowing(ck):
         o.ok('visits every statement')
     # each narrowing step: V = V[ops[..](V[name], ...)]
     def _app(x):
-        return [c for c in ast.walk(x) if isinstance(c, ast.Call) and isinstance(c.func, ast.Subscript) and u(c.func.value) == 'operators']
+        return [c for c in ast.walk(x) if isinstance(c, ast.Call) and isinstance(c.func, ast.Subscript) and u(c.func.value) == _table_name(P, f)]
     steps = [n for n in ast.walk(lp) if isinstance(n, ast.Assign) and isinstance(n.value, ast.Subscript) and _app(n.value.slice)]
     if not steps:
         ck.ob('C04-D2.step', f, 'narrowing step', lp).fail('the loop does not narrow the event array')
@@ -160,7 +181,7 @@ def rule_datetime(ck):
     # column: the column name reaching it has the constant 'origin_time' among its alternatives
     exi = Expander(P, f, inline_depth=1)
     kinds = {}
-    for a in [n for n in all_nodes(f) if isinstance(n, ast.Call) and isinstance(n.func, ast.Subscript) and u(n.func.value) == 'operators']:
+    for a in [n for n in all_nodes(f) if isinstance(n, ast.Call) and isinstance(n.func, ast.Subscript) and u(n.func.value) == _table_name(P, f)]:
         col = a.args[0] if a.args else None
         sees = False
         if isinstance(col, ast.Subscript):
